@@ -424,4 +424,27 @@ def run (v : Variant) : State → List Op → State × List Out
 
 def State.empty : State := ⟨[], 0, 0, []⟩
 
+/-! ### retractall/1 (bootstrap.pl)
+
+      retractall(Head) :- retract((Head :- _)), fail.
+      retractall(_).
+-/
+
+/-- the failure-driven loop: backtrack into the open retract `h` until it has no more solutions -/
+def drain (v : Variant) : Nat → State → Nat → State × Out
+  | 0, st, _ => (st, .badHandle)
+  | fuel + 1, st, h =>
+    match next v st h with
+    | (st', .answer _) => drain v fuel st' h
+    | r => r
+
+/-- first clause: the loop (an error of `retract/1` propagates); second clause: succeed -/
+def retractall (v : Variant) (fuel : Nat) (st : State) (head : Term) : State × Out :=
+  match openRetract st (.a2 ":-" head (.var (maxVar head))) with
+  | (st1, .opened h) =>
+    match drain v fuel st1 h with
+    | (st2, .no) => (st2, .ok)
+    | r => r
+  | r => r
+
 end PrologVerif.DB
